@@ -1,1 +1,7 @@
 pub mod rfc6962;
+pub mod alu;
+pub mod isa;
+pub mod smt;
+pub mod fee;
+pub mod validity;
+pub mod flatmem;
